@@ -94,6 +94,9 @@ def shards(tier, seed):
             out.append(('multipart', L, M, None, tier))
     # a threshold that is large against the part headers (several fields fit one by one, not together)
     out.append(('multipart', None, 1024, None, tier))
+    # one application serves bodies above and below the limit one after the other (what one refusal leaves behind must not
+    # decide the next answer)
+    out.append(('sequence', 5, 4, None, tier))
     # seed extension: another (limit, threshold) pair, enumerated just as exhaustively
     out.append(('plain', 3 + seed % 9, 2 + seed % 6, 'raw', tier))
     out.append(('plain', 3 + seed % 9, 2 + seed % 6, 'urlencoded', tier))
@@ -106,7 +109,7 @@ def bounds(tier, seed):
             'reads': 'all executions with <=1 short answer (thorough: <=2 for sizes <= 12) + byte-at-a-time'}
 
 
-FLOORS = {'via_copy': 500, 'rejected_413': 200, 'accepted': 200, 'spooled_file': 50, 'text_refused': 50, 'mp_file_intact': 4,
+FLOORS = {'sequence_requests': 200, 'via_copy': 500, 'rejected_413': 200, 'accepted': 200, 'spooled_file': 50, 'text_refused': 50, 'mp_file_intact': 4,
           'mp_text_refused': 2, 'short_read_execs': 200}
 
 
@@ -406,13 +409,57 @@ def work_multipart(spec):
     return res
 
 
+SEQ_SIZES = [6, 3, 1, 9, 5, 0]
+
+
+def sequence_once(om, L, M, seq):
+    """one application serves the bodies of `seq` = [(size, framing)] one after the other; -> None or a description"""
+    app = om.Ombott({'max_body_size': L, 'max_memfile_size': M})
+    app.route('/p', 'POST', lambda: app.request.body.read())
+    for k, (n, framing) in enumerate(seq):
+        payload = make_payload('raw', n)
+        raw, envkw, _, _ = encode(payload, framing, 3)
+        c = wsgi.call(app, wsgi.environ('POST', '/p', body=raw, ctype=CTYPE['raw'], **{k2: v for k2, v in envkw.items() if k2 != 'clen'},
+                                        **({'clen': envkw['clen']} if envkw.get('clen') is not None else {})))
+        want = 413 if n > L else 200
+        if c.code != want or (want == 200 and c.body != payload):
+            return (f'request #{k + 1} of {seq!r} on one application (max_body_size={L}): a {n}-byte body ({framing}) answered {c.status}'
+                    f'{"" if c.code != 200 else " with another body"}, expected {want}')
+    return None
+
+
+def work_sequence(spec):
+    _, L, M, _, tier = spec
+    res = core.new_result()
+    om = sut.load()
+    c = res['counters']
+    import itertools
+    items = [(n, f) for n in SEQ_SIZES for f in ('cl', 'chunked')]
+    for seq in itertools.product(items, repeat=2 if tier == 'quick' else 3):
+        res['states'] += 1
+        res['transitions'] += len(seq)
+        res['execs'] += len(seq)
+        c['sequence_requests'] += len(seq)
+        res['nontrivial'] += 1
+        bad = sequence_once(om, L, M, list(seq))
+        res['outcomes'].add('sequence ok' if bad is None else 'sequence BAD')
+        if bad:
+            core.add_violation(res, {'kind': 'sequence', 'L': L, 'M': M, 'seq': [list(x) for x in seq]}, bad, sig='sequence')
+    core.add_sample(res, {'kind': 'sequence', 'max_body_size': L, 'sizes': SEQ_SIZES, 'length': 2 if tier == 'quick' else 3})
+    return res
+
+
 def work(spec):
+    if spec[0] == 'sequence':
+        return work_sequence(spec)
     return work_plain(spec) if spec[0] == 'plain' else work_multipart(spec)
 
 
 def replay(case):
     om = sut.load()
     L, M = case['L'], case['M']
+    if case['kind'] == 'sequence':
+        return sequence_once(om, L, M, [tuple(x) for x in case['seq']])
     if case['kind'] == 'plain':
         ct, n = case['ct'], case['n']
         payload = make_payload(ct, n)
